@@ -952,4 +952,29 @@ example : (toSurfaceKeep faceTable exMesh).toOption.map (fun r => (r.nodes.ids, 
     some ([30, 10, 20, 40, 50, 60], [1, 2, 3, 4]) := by decide
 example : (toFacetsAll faceTable exMesh).toOption.map (fun r => (r.nodes.ids, r.elems.flatten.length)) =
     some ([30, 10, 20, 40, 50, 60], 6) := by decide
+/-! ## the regenerated face tables are element surfaces (tie T obligation on `Femio.Gen.faces_*`, round 4) -/
+
+/-- directed edges of a face given as a cycle of local node numbers -/
+def cycEdges (f : List Nat) : List (Nat × Nat) := f.zip (f.drop 1 ++ f.take 1)
+
+/-- a face table over local node numbers `0 .. arity-1` is a closed oriented surface: every face uses numbers below the
+    arity, no number twice, and every directed edge of the table occurs exactly once and its reverse exactly once -/
+def tableClosed (arity : Nat) (fs : List (List Nat)) : Bool :=
+  let es := fs.flatMap cycEdges
+  fs.all (fun f => f.all (· < arity) && f.all (fun i => f.count i == 1)) &&
+    es.all fun e => es.count e == 1 && es.count (e.2, e.1) == 1
+
+/-- **C09_face_tables_closed.** Every solid face table the C09 model is instantiated with - regenerated from
+    `_generate_all_faces` of the working tree on every run: tet 8, tet2 9, pyr 10, prism 12, hex 14, hexprism 16 - is a
+    closed oriented surface over the element's own local nodes (`tableClosed`).  `C09_surface_once_only` says the surface
+    is the once-only faces *of the table*; this is the obligation on the table itself, so a wrong local node number in the
+    source breaks a proof obligation of C09 and not only of C10 (seeded C09-8: `[7, 8, 9, 11]` for `[7, 8, 9, 10]`). -/
+theorem C09_face_tables_closed :
+    ∀ ta ∈ [(8, 4), (9, 10), (10, 5), (12, 6), (14, 8), (16, 12)],
+      (faceTable ta.1).map (tableClosed ta.2) = some true := by decide
+
+/-- non-vacuity / sensitivity: the hexprism table with one wrong entry in the top cap is not closed -/
+example : tableClosed 12 [[0, 5, 4, 1], [1, 4, 3, 2], [5, 11, 10, 4], [4, 10, 9, 3], [3, 9, 8, 2], [0, 6, 11, 5],
+    [6, 7, 10, 11], [7, 8, 9, 11], [1, 2, 8, 7], [0, 1, 7, 6]] = false := by decide
+example : (faceTable 16).map List.length = some 10 := by decide
 end Femio.C09
